@@ -248,6 +248,9 @@ pub async fn run_case(backend: &str, seed: u64, rep: &mut Report, ops: &mut Vec<
         cx.ops.push(format!("folder new {}", tok.view(&v).replace(" secrets=-", "")));
         cx.imp.push("ok".into());
     }
+    // a saved copy of the default folder's log for a later forced overwrite (C02: force merges)
+    let mut saved: Option<(sos_core::events::patch::FolderDiff, BTreeMap<SecretId, String>, usize)> = None;
+    let mut edits_since_save = 0usize;
     let n_ops = rng.range(6, 22);
     for step in 0..n_ops {
         let mut a = w.devices[0].lock().await;
@@ -257,7 +260,40 @@ pub async fn run_case(backend: &str, seed: u64, rep: &mut Report, ops: &mut Vec<
         let kind = rng.below(100);
         if std::env::var("HTRACE").is_ok() { eprintln!("step {step} kind {kind} script-last {:?}", cx.script.last()); }
         let mut model_line: Option<String> = None;
-        if kind < 28 {
+        let mut reload_now = false;
+        if kind < 14 && !two && folder == default && ((saved.is_none() && !in_folder.is_empty()) || (saved.is_some() && edits_since_save >= 1)) {
+            // save the log now, or force-merge the saved log (forced overwrite) if there is one
+            use sos_core::events::EventLog;
+            use sos_sync::{ForceMerge, MergeOutcome};
+            match saved.take() {
+                None => {
+                    let (diff, n) = { let log = a.folder_log(&default).await.map_err(|e| anyhow::anyhow!(e.to_string()))?; let l = log.read().await; (l.diff_unchecked().await.map_err(|e| anyhow::anyhow!(e.to_string()))?, l.tree().len()) };
+                    saved = Some((diff, live.get(&default).cloned().unwrap_or_default(), n));
+                    cx.script.push(format!("save-log {n} events")); cx.rep.count("op:save-log"); edits_since_save = 0;
+                }
+                Some((diff, live_then, n)) => {
+                    let mut outcome = MergeOutcome::default();
+                    match a.force_merge_folder(&default, diff, &mut outcome).await {
+                        Ok(_) => {
+                            live.insert(default, live_then);
+                            cx.script.push(format!("force-merge saved log of {n} events"));
+                            cx.rep.count("op:force-merge");
+                            model_line = Some(format!("folder force keep={n}"));
+                            history.clear();
+                            reload_now = true;
+                            if std::env::var("FDEBUG").is_ok() {
+                                let vp = a.paths().vault_path(&default);
+                                let n_file = match std::fs::read(&vp) { Ok(b) => { let v: Result<sos_vault::Vault, _> = sos_core::decode(&b).await; v.map(|v| v.len() as i64).unwrap_or(-1) } Err(_) => -2 };
+                                let sv = served(&mut a, &default).await.map(|v| v.secrets.len() as i64).unwrap_or(-1);
+                                let rp = replayed(&a, &default).await.map(|v| v.secrets.len() as i64).unwrap_or(-1);
+                                eprintln!("FDEBUG force-merge: saved-live={} file-rows={} served={} replay={} backend={}", live.get(&default).map(|m| m.len()).unwrap_or(0), n_file, sv, rp, cx.backend);
+                            }
+                        }
+                        Err(e) => cx.fail("c02-force-merge-error", &e.to_string()),
+                    }
+                }
+            }
+        } else if kind < 28 {
             let (m, s) = { let l = format!("label{}", rng.below(50)); mk_secret(&mut rng, &l) };
             let d = content_digest(&m, &s).await;
             match a.create_secret(m, s, opts).await {
@@ -385,7 +421,7 @@ pub async fn run_case(backend: &str, seed: u64, rep: &mut Report, ops: &mut Vec<
                             Err(e) => cx.fail(&format!("c12-{opname}-key-probe-error"), &e),
                         }
                     }
-                    if targets.contains(&default) { model_line = Some("folder compact".into()); }
+                    if targets.contains(&default) { model_line = Some("folder compact".into()); history.clear(); saved = None; }
                 }
                 Err(e) => cx.fail(&format!("c12-{opname}-error"), &e),
             }
@@ -405,7 +441,7 @@ pub async fn run_case(backend: &str, seed: u64, rep: &mut Report, ops: &mut Vec<
                     let n = { let log = a.folder_log(&folder).await.map_err(|e| anyhow::anyhow!(e.to_string()))?; let l = log.read().await; use sos_core::events::EventLog; l.tree().len() };
                     let livec = live.get(&folder).map(|m| m.len()).unwrap_or(0);
                     if n != 1 + livec { cx.fail("c12-compacted-log-shape", &format!("log has {n} events, expected 1 + {livec}")); }
-                    if folder == default { model_line = Some("folder compact".into()); }
+                    if folder == default { model_line = Some("folder compact".into()); history.clear(); saved = None; }
                 }
                 Err(e) => cx.fail("c12-compact-error", &e.to_string()),
             }
@@ -441,6 +477,7 @@ pub async fn run_case(backend: &str, seed: u64, rep: &mut Report, ops: &mut Vec<
             // re-read what device 0 now serves as the expected state for later steps when a conflict was merged
             if !model_ok { for (f, m) in live.iter_mut() { if let Ok(v) = served(&mut a, f).await { *m = v.secrets.into_iter().collect(); } } }
         }
+        if model_line.as_deref().map(|l| l.starts_with("folder op")).unwrap_or(false) { edits_since_save += 1; }
         if std::env::var("HTRACE").is_ok() { eprintln!("  views"); }
         // views after the step
         check_views(&mut cx, &mut a, &live, "d0").await;
@@ -460,7 +497,7 @@ pub async fn run_case(backend: &str, seed: u64, rep: &mut Report, ops: &mut Vec<
             if let (Some(c), Ok(v)) = (lc, served(&mut a, &default).await) { history.push((c, v)); }
         }
         // every few steps: a fresh instance signs in from persisted storage (C01 reload)
-        if step % 5 == 4 {
+        if step % 5 == 4 || reload_now {
             if std::env::var("HTRACE").is_ok() { eprintln!("  fresh"); }
             let target = a.backend_target().await;
             let account_id = *a.account_id();
@@ -483,6 +520,13 @@ pub async fn run_case(backend: &str, seed: u64, rep: &mut Report, ops: &mut Vec<
                                 (_, Err(e)) => cx.fail("c01-reloaded-account-read-error", &e),
                                 _ => {}
                             }
+                            // C02: what the vault store holds (served by a fresh instance) equals the replay of the log
+                            if let (Ok(y), Ok(rp)) = (served(&mut fresh, &f).await, replayed(&fresh, &f).await) {
+                                if !same_content(&y, &rp) {
+                                    let what = if y.name != rp.name { "name" } else if y.flags != rp.flags { "flags" } else if y.desc != rp.desc { "description" } else { "secrets" };
+                                    cx.fail(&format!("c02-persisted-vault-differs-from-replay-after-reload-{what}"), &format!("folder {f}: fresh sign-in serves {:?}, replay of its log {:?}", (y.secrets.len(), y.flags), (rp.secrets.len(), rp.flags)));
+                                }
+                            }
                         }
                         let _ = fresh.sign_out().await;
                         cx.script.push("fresh-sign-in".into());
@@ -501,8 +545,8 @@ pub async fn run_case(backend: &str, seed: u64, rep: &mut Report, ops: &mut Vec<
             let log = a.folder_log(&default).await.map_err(|e| anyhow::anyhow!(e.to_string()))?; let l = log.read().await;
             let st = l.record_stream(false).await; futures::pin_mut!(st); let mut v = vec![];
             while let Some(r) = st.next().await { if let Ok(r) = r { v.push(*r.commit()); } } v };
-        let compacted = cx.script.iter().any(|l| l.starts_with(&format!("compact {default}")));
-        if !compacted {
+        // (the recorded history is cleared whenever the log is rebuilt: compaction, key change)
+        {
             for (c, expect) in &history {
                 let dup = all.iter().filter(|x| *x == c).count() > 1;
                 // with identical events the last snapshot taken at this hash is the one after its FIRST occurrence only if unique
